@@ -40,7 +40,8 @@ OUTSIDE = ["payload bytes outside the symbolic window keep their logged value", 
            "indexes that the code derives from a zone type / role rather than carries (0005, 000C, 0404 'HW', 0418, 3220, 1FC9)"]
 STUBS = c01.STUBS[-1:]
 ASSUMPTIONS = ["ratio-named keys: " + ", ".join(sorted(D.RATIO_KEYS)), "temperature-named keys: temperature, setpoint, min_temp, max_temp, *_temp"]
-MIN_CONCLUSIVE_FRACTION = 0.8
+MIN_CONCLUSIVE_FRACTION = 0.7
+OPTIONAL_GROUPS = ("fullx",)
 
 
 def setup(tier):
